@@ -822,7 +822,7 @@ def fd_mc(ctx, name, consts):
     return mc(ctx, name, "MC_FD", c, FD_INVS, {"GoalsAfter": "FdGoalsAfter", "Vals": "FdVals"}, workers=14, timeout=7000)
 
 
-def fd_cases_from_mc(ctx, res, prefix, nvars, stride=1, limit=60000):
+def fd_cases_from_mc(ctx, res, prefix, nvars, stride=1, limit=25000):
     """MC_FD behaviours -> query programs (when every variable got a domain) and FD store cases.
     At most `limit` distinct behaviours are used (every k-th one)."""
     uniq = len(set(json_key(c["ops"]) for c in res["cases"]))
